@@ -24,6 +24,12 @@ def make_copy(edits):
     for fn in os.listdir(src):
         if fn.endswith((".py", ".pyx")):
             shutil.copy(os.path.join(src, fn), os.path.join(dst, fn))
+    apply_edits(d, edits)
+    return d
+
+
+def apply_edits(d, edits):
+    dst = os.path.join(d, "src", "catii")
     for e in edits:
         # only ever the scratch copy: an absolute path or a path with directories is reduced to its file name
         p = os.path.join(dst, os.path.basename(e["file"]))
@@ -56,7 +62,6 @@ def make_copy(edits):
                 raise ValueError("variant does not parse: %s" % ex)
         with open(p, "w") as f:
             f.write(s)
-    return d
 
 
 def apply_patch(d, patch):
@@ -73,6 +78,8 @@ def run_variant(v, tier="quick"):
         d = make_copy(edits)
         if v.get("patch"):
             apply_patch(d, v["patch"])
+        if v.get("post_edits"):  # edits of the PATCHED text (mutants of a refactored form)
+            apply_edits(d, v["post_edits"])
     except ValueError as e:
         return {"name": v["name"], "ok": False, "rc": None, "why": str(e), "out": ""}
     try:
